@@ -459,6 +459,12 @@ pub fn run<P: Property>(args: &Args) -> i32 {
             exit = 1;
         }
     }
+    // every listed known finding of this property is named on every run (also with 0 occurrences)
+    for k in known.iter().filter(|k| k.property == P::ID && k.status == "known") {
+        if !known_hits.contains(&k.key) {
+            println!("KNOWN-FINDING: property={} {} ({}; 0 occurrences in this run)", P::ID, k.key, k.what);
+        }
+    }
     let wall = t0.elapsed().as_secs_f64();
     if args.evidence {
         let classes: BTreeMap<_, _> = total.classes.iter().collect();
